@@ -13,7 +13,7 @@ from .. import coqio as q
 PROP = "C06"
 CORR = "Corr.C06"
 REQUIRES = ["Model.Matchers", "Spec.C06"]
-PROOF_FILES = ["Proof/C06.v", "Proof/C06Setwise.v", "Lib/Sort.v"]
+PROOF_FILES = ["Proof/C06.v", "Proof/C06Setwise.v", "Proof/C06Leaves.v", "Lib/Sort.v"]
 MANIFEST = {
     "text": "Coq theorems over all matcher expressions (structural induction on the nested expression tree with a "
             "custom induction principle; Permutation argument for MatchesSetwise) about a hand-written Gallina model "
